@@ -213,6 +213,9 @@ func main() {
 	total := o.Count(800, 12000)
 	for c := 0; c < total && !e.hung; c++ {
 		v := e.variants[r.Pick(len(e.variants))]
+		for v.Fixed && len(v.Gen(r, 0)) > 8000 { // the 29 KB EDI sample is too heavy for 17 schedules in the quick tier
+			v = e.variants[r.Pick(len(e.variants))]
+		}
 		gi := iox.GenInput2(r, v)
 		in, kind := gi.In, gi.Kind
 		interior := iox.Interior(in, v.Tokens)
